@@ -29,9 +29,15 @@ class _NS:
 
 
 def load_code(enc=None, transform=None):
-    ns = {'np': np, 'scipy': _NS(sparse=sparse_facade()), 'bspline': None, 'boundary_dofs': None}
+    ns = {'np': np, 'scipy': _NS(sparse=sparse_facade()), 'bspline': _NS(numdofs=lambda kvs: kvs[2]), 'boundary_dofs': None}
     srcload.load_defs('pyiga/assemble.py', ['Multipatch'], ns, encoded=enc, transform=transform)
     return ns['Multipatch']
+
+
+def new_mp(MP, P, n):
+    """a Multipatch built by its REAL constructor (abstract patches: 'kvs' = ('kvs', p, n) with bspline.numdofs stubbed to n), so that
+    whatever __init__ sets up exists; the sharing state is then replaced by the symbolic pre-state"""
+    return MP([(('kvs', p, n), ('geo', p)) for p in range(P)])
 
 
 def same(spp, x, y):
@@ -73,7 +79,7 @@ def join_harness(MP, P, n, K, p1, p2, allow_empty):
     def run(c):
         for q in inv + class_invariant(dofs, spp0, L0, K, allow_empty): c.assume(q)
         c.assume(z3.And(i1 >= 0, i1 < n, i2 >= 0, i2 < n))
-        mp = MP.__new__(MP)
+        mp = new_mp(MP, P, n)
         mp.shared_per_patch = [SymDict({i: spp0[p][i] for i in range(n)}) for p in range(P)]
         mem = [{(p, i): (spp0[p][i] == s) for (p, i) in dofs} for s in range(cap)]
         mp.shared_dofs = SymSetList(L0, mem, cap, dofs)
@@ -110,9 +116,7 @@ def finalize_harness(MP, P, n, K, allow_empty):
 
     def run(c):
         for q in inv + class_invariant(dofs, spp0, L0, K, allow_empty): c.assume(q)
-        mp = MP.__new__(MP)
-        mp.N = [n] * P
-        mp.N_ofs = np.concatenate(([0], np.cumsum(mp.N)))
+        mp = new_mp(MP, P, n)
         mp.shared_per_patch = [SymDict({i: spp0[p][i] for i in range(n)}) for p in range(P)]
         mem = [{(p, i): (spp0[p][i] == s) for (p, i) in dofs} for s in range(cap)]
         mp.shared_dofs = SymSetList(L0, mem, cap, dofs)
@@ -139,14 +143,10 @@ def finalize_harness(MP, P, n, K, allow_empty):
 REPLAY = r'''
 import sys, json, numpy as np
 w = json.load(sys.stdin)
-from pyiga import assemble
+from pyiga import assemble, bspline
 P, n = w['P'], w['n']
-mp = assemble.Multipatch.__new__(assemble.Multipatch)
-mp.patches = [None] * P
-mp.N = [n] * P
-mp.N_ofs = np.concatenate(([0], np.cumsum(mp.N)))
-mp.shared_per_patch = [dict() for _ in range(P)]
-mp.shared_dofs = []
+# real constructor; every patch is a 1D space with n functions (degree 1, n-1 spans), no geometry needed for the bookkeeping
+mp = assemble.Multipatch([((bspline.make_knots(1, 0.0, 1.0, n - 1),), None) for _ in range(P)])
 parent = {}
 def find(x):
     parent.setdefault(x, x)
@@ -189,8 +189,15 @@ if not bad:
     # boundary data through the multipatch routine, triples interleaved (a patch comes back after another one)
     try:
         seq = [(0, (0,), None), (1, (n - 1,), None), (0, (n - 1, 0), None)] + ([(P - 1, (0,), None), (1, (0,), None)] if P > 2 else [])
-        mp.patches = [(('kvs', p), ('geo', p)) for p in range(P)]
-        assemble.compute_dirichlet_bc = lambda kvs, geo, bdspec, g: (np.array(bdspec, dtype=int), np.array([100.0 * kvs[1] + l for l in bdspec]))
+        pof = lambda kvs: [q for q, (k, _) in enumerate(mp.patches) if k is kvs][0]
+        assemble.compute_dirichlet_bc = lambda kvs, geo, bdspec, g: (np.array(bdspec, dtype=int), np.array([100.0 * pof(kvs) + l for l in bdspec]))
+        real_combine = assemble.combine_bcs
+        assemble.combine_bcs = lambda bcs: list(bcs)          # look at the per-triple pairs before duplicates are merged
+        pairs = mp.compute_dirichlet_bcs(seq)
+        assemble.combine_bcs = real_combine
+        for (pp, loc, _), (gi, gv) in zip(seq, pairs):
+            if [int(v) for v in gi] != [int(G[pp][l]) for l in loc] or [float(v) for v in gv] != [100.0 * pp + l for l in loc]:
+                bad.append('Multipatch.compute_dirichlet_bcs: triple (patch %d, local dofs %s) mapped to global %s, the numbering of the patch gives %s' % (pp, list(loc), [int(v) for v in gi], [int(G[pp][l]) for l in loc]))
         idx, vals = mp.compute_dirichlet_bcs(seq)
         exp = {}
         for (pp, loc, _) in seq:
@@ -230,7 +237,7 @@ class NumNP(SymNP):
 
 
 def load_numbering(enc=None, transform=None):
-    ns = {'np': NumNP(), 'scipy': _NS(sparse=sparse_facade()), 'bspline': None, 'boundary_dofs': None}
+    ns = {'np': NumNP(), 'scipy': _NS(sparse=sparse_facade()), 'bspline': _NS(numdofs=lambda kvs: kvs[2]), 'boundary_dofs': None}
     srcload.load_defs('pyiga/assemble.py', ['Multipatch'], ns, encoded=enc, transform=transform)
     return ns
 
@@ -246,10 +253,7 @@ def numbering_harness(ns, P, n, K):
 
     def run(c):
         for q in inv + class_invariant(dofs, spp0, L0, K, False): c.assume(q)
-        mp = MP.__new__(MP)
-        mp.N = [n] * P
-        mp.N_ofs = np.concatenate(([0], np.cumsum(mp.N)))
-        mp.patches = [(('kvs', p), ('geo', p)) for p in range(P)]
+        mp = new_mp(MP, P, n)
         mp.shared_per_patch = [SymDict({i: spp0[p][i] for i in range(n)}) for p in range(P)]
         mem = [{(p, i): (spp0[p][i] == s) for (p, i) in dofs} for s in range(cap)]
         mp.shared_dofs = SymSetList(L0, mem, cap, dofs)
